@@ -36,6 +36,7 @@ func runC05(b *Batch) {
 			continue
 		}
 		c05Concurrent(b, i, rng)
+		collectGarbage(i)
 	}
 }
 
@@ -81,6 +82,7 @@ func c05Concurrent(b *Batch, idx int, rng *rand.Rand) {
 		}
 	}
 	x := c.run()
+	defer x.run.release()
 	b.R.Eval()
 	b.R.Count("a.runs", 1)
 	b.R.Count("api."+c.Cfg.API, 1)
@@ -273,6 +275,7 @@ func c05Sequential(b *Batch, idx int, rng *rand.Rand) {
 	sc := newSched(false, "random", rng)
 	sc.delayProb = 0
 	r := newFoRun(cfg, [][]byte{[]byte("seq-key")}, sc)
+	defer r.release()
 	prepop := ""
 	if state != "absent" {
 		prepop = r.prepopulate(rng, 0, state)
